@@ -4,6 +4,7 @@ go 1.23.0
 
 require (
 	github.com/anishathalye/porcupine v1.3.0
+	google.golang.org/protobuf v1.36.6
 	perun.network/go-perun v0.0.0
 )
 
@@ -17,7 +18,6 @@ require (
 	golang.org/x/crypto v0.37.0 // indirect
 	golang.org/x/sync v0.13.0 // indirect
 	golang.org/x/sys v0.32.0 // indirect
-	google.golang.org/protobuf v1.36.6 // indirect
 	gopkg.in/yaml.v3 v3.0.1 // indirect
 	polycry.pt/poly-go v0.0.0-20220301085937-fb9d71b45a37 // indirect
 )
